@@ -6,6 +6,7 @@ import monitor
 import proto
 import prun
 import vcommon
+from checks import pcommon
 from vcommon import Violation
 
 LEVEL = "exploration"
@@ -271,6 +272,9 @@ def run(chk, tier, scale=1.0):
     jobs = [dict(build=b, seed=random.Random("c11/%d/%d" % (chk.seed, i)).randrange(1 << 30), nprobes=40 if tier == "quick" else 60) for i in range(n)]
     res = vcommon.pmap(_worker, jobs)
     prun.fold(chk, "C11", res)
+    # directed scripts around a reload of the SERVICE table while a client that holds an OK is still waiting (the xreply_ok criterion)
+    for rs in vcommon.pmap(pcommon.script_worker, pcommon.reload_jobs(b, chk.seed, PROPS, int((144 if tier == "quick" else 3600) * scale), tag="rls11")):
+        prun.fold(chk, "C11", rs)
     chk.count("rule_tables", len(res))
     chk.sample({"rule_table": res[0]["rules"]})
     chk.rule = ("random rule tables (1-6 rules; names whose ASCII order differs from case-insensitive order: B1 a2 Zz z0 _x 10 9 ...; every subset of account / address / username / "
